@@ -3,7 +3,9 @@ import itertools
 from .base import Base, bump
 from ..core import hx
 
-KEYS = ["", "a", "ab", "b", "B", "é", "a\0", "ａ", "z", "aa", "é́", "\U0001F600", "ab-c", "a b"]
+# the second line: keys that diverge INSIDE a UTF-8 character (same lead byte, or same lead bytes of a 3-/4-byte character)
+KEYS = ["", "a", "ab", "b", "B", "é", "a\0", "ａ", "z", "aa", "é́", "\U0001F600", "ab-c", "a b",
+        "è", "größe", "grüße", "д", "ж", "日本", "日曜", "\U0001F601", "aé", "aè"]
 SIMPLE_VALS = ["s" + hx("x"), "s-", "o" + hx("y"), "o" + hx("é"), "c" + hx("cust"), "z", "i5", "i-7", "i0",
                "u255", "s" + hx("1.0"), "i123456789012"]
 NUM_VALS = ["t" + hx("1.50"), "t" + hx("-0"), "t" + hx("007"), "t" + hx("abc"), "t" + hx("1 "), "t" + hx("0.000"),
@@ -42,7 +44,7 @@ class C11(Base):
 
     def gen_history(self, rng, maxlen):
         n = rng.randint(1, maxlen)
-        nk = rng.choice([2, 3, 4, 6, len(KEYS)])
+        nk = rng.choice([2, 3, 4, 6, 10, len(KEYS)])
         keys = rng.sample(KEYS, nk)
         ops = []
         for _ in range(n):
